@@ -121,8 +121,47 @@ func evaluate(o *hx.Opts, sc *Scenario, r *hx.Rand, res *hx.Result) *scenarioRes
 			res.Fail(prefix+d.Clause+":"+d.Path, input(p), fmt.Sprintf("call %d (0 = trigger): %s", d.Call, d.Detail))
 		}
 	}
+	// asset deleted between sprints: a session read over reduced assets must itself be persistable (clause 1)
+	if sc.LoadWithout != nil && sc.NumResumes >= 1 && out.base != nil && len(out.base.Calls) > 0 && out.base.Calls[0].Outcome == "ok" &&
+		(sc.DropKind != "" || r.Chance(1, 2)) {
+		kinds := []string{sc.DropKind}
+		switch sc.DropKind {
+		case "":
+			kinds = []string{hx.Pick(r, assetKinds)}
+		case "*":
+			kinds = assetKinds
+		}
+		for _, kind := range kinds {
+			at := r.Intn(sc.NumResumes)
+			if sc.DropKind != "" {
+				at = 0
+			}
+			ex := sc.runDeleted(kind, at)
+			dinput := map[string]any{"scenario": sc.Name, "input": sc.Input, "seed": sc.Seed, "assets_deleted": kind, "deleted_before_resume": at}
+			res.Dist("asset-deleted:" + kind)
+			switch {
+			case ex.Harness != "":
+				res.Fail("harness:"+strings.SplitN(ex.Harness, ":", 2)[0], dinput, ex.Harness)
+			case ex.FirstRead != "":
+				res.Dist("asset-deleted:" + kind + ":first-read-did-not-succeed")
+			default:
+				res.OracleChecks++
+				for k, d := range ex.Refix {
+					res.Fail("asset-deleted:"+kind+":remarshal:"+generalise(d), dinput, fmt.Sprintf("after every %s asset was deleted and the session re-read: before call %d: marshal -> ReadSession -> marshal differs %s", kind, ex.RefixAt[k], d))
+				}
+				for k, d := range ex.CtxDiff {
+					res.Fail("asset-deleted:"+kind+":context:"+generalise(d), dinput, fmt.Sprintf("before call %d: CurrentContext() differs after re-read %s", ex.CtxAt[k], d))
+				}
+				for _, e := range ex.ReadErrs {
+					res.Fail("asset-deleted:"+kind+":reread-fails:"+readErrClass(e), dinput, "the session read back over the reduced assets cannot itself be read back: "+e)
+				}
+			}
+		}
+	}
 	return out
 }
+
+var assetKinds = []string{"channels", "groups", "fields", "labels", "topics", "users", "globals", "optins", "classifiers", "resthooks", "other-flows"}
 
 // the path part of a jsonDiff text ("at <path>: …")
 func generalise(d string) string {
